@@ -64,9 +64,11 @@ def run_behaviour(meta, steps, catalogue, check_setup=True):
         if 'p' not in s:
             # a step of the witness prefix: executed, not compared here (it is the last, compared, step of another witness)
             try:
-                sess.step(resolve(s, catalogue))
+                o0 = sess.step(resolve(s, catalogue))
             except Exception:
                 return {'kind': 'harness', 'phase': phase, 'step': idx, 'why': traceback.format_exc()[-1500:]}
+            if sess.chunk_rng is not None and s['a'] in ('recv', 'dlv') and o0['r']['c'] != 'ok':
+                return None      # fed in pieces, an input that raises leaves a partial frame behind: nothing later is comparable
             dev_before[s['x']] = s.get('dev', [])
             continue
         if s['p'].get('ux'):
